@@ -5,6 +5,7 @@ package main
 
 import (
 	"fmt"
+	"os"
 	"sort"
 	"strings"
 	"sync"
@@ -50,12 +51,15 @@ type PathCtx struct {
 	stats  PathStats
 	unknowns int
 	cascaded int
+	sent     int
+	started  bool
 	in     *Interp
 	asserts map[string]*AssertSite
 	reached map[string]bool
 	cfg    *RunConfig
 	nameCount map[string]int
 	decided map[*Term]bool
+	forks  map[string]int
 	inputs []namedInput
 	twin   bool
 }
@@ -83,10 +87,31 @@ func (p *PathCtx) cloneTrail(extra Dec) []Dec {
 
 func (p *PathCtx) assertPC(c *Term) {
 	p.pc = append(p.pc, c)
-	p.solver.Assert(c)
 	if p.M != nil && p.M.Eval(c) == 0 {
 		p.M = nil
 	}
+}
+
+// flush sends the assertions not yet given to the solver (purely concrete
+// paths never talk to it).
+func (p *PathCtx) flush() {
+	if !p.started {
+		p.solver.Reset()
+		p.started = true
+	}
+	for ; p.sent < len(p.pc); p.sent++ {
+		p.solver.Assert(p.pc[p.sent])
+	}
+}
+
+func (p *PathCtx) checkWith(t *Term) Result {
+	p.flush()
+	return p.solver.CheckWith(t)
+}
+
+func (p *PathCtx) modelWith(t *Term) (Model, Result) {
+	p.flush()
+	return p.solver.ModelWith(t, p.tb.vars)
 }
 
 // ensureModel makes p.M a model of the current path condition.
@@ -94,7 +119,7 @@ func (p *PathCtx) ensureModel() {
 	if p.M != nil {
 		return
 	}
-	m, r := p.solver.ModelWith(nil, p.tb.vars)
+	m, r := p.modelWith(nil)
 	switch r {
 	case Sat:
 		p.M = m
@@ -153,7 +178,7 @@ func (p *PathCtx) branch(c *Term) bool {
 	if side {
 		other = p.tb.Not(c)
 	}
-	r := p.solver.CheckWith(other)
+	r := p.checkWith(other)
 	if r == Unknown {
 		p.unknowns++
 	}
@@ -166,6 +191,7 @@ func (p *PathCtx) branch(c *Term) bool {
 		return side
 	}
 	p.alts = append(p.alts, p.cloneTrail(Dec{'b', 1 - sideV}))
+	p.forkSite()
 	p.trail = append(p.trail, Dec{'b', sideV})
 	if side {
 		p.assertPC(c)
@@ -190,6 +216,7 @@ func (p *PathCtx) Choice(n int) int {
 	}
 	for k := n - 1; k >= 1; k-- {
 		p.alts = append(p.alts, p.cloneTrail(Dec{'c', int64(k)}))
+		p.forkSite()
 	}
 	p.trail = append(p.trail, Dec{'c', 0})
 	return 0
@@ -199,7 +226,6 @@ func (p *PathCtx) Choice(n int) int {
 func (p *PathCtx) Bind(t *Term, v uint64) {
 	c := p.tb.Eq(t, p.tb.Const(t.sort, v))
 	p.pc = append(p.pc, c)
-	p.solver.Assert(c)
 	if p.M != nil {
 		p.M[t.name] = v
 	}
@@ -231,7 +257,7 @@ func (p *PathCtx) Concretize(t *Term) uint64 {
 		p.ensureModel()
 		val := p.M.Eval(t)
 		v := tb.Const(t.sort, val)
-		r := p.solver.CheckWith(tb.Not(tb.Eq(t, v)))
+		r := p.checkWith(tb.Not(tb.Eq(t, v)))
 		if r == Unknown {
 			p.unknowns++
 		}
@@ -241,6 +267,7 @@ func (p *PathCtx) Concretize(t *Term) uint64 {
 			return val
 		}
 		p.alts = append(p.alts, p.cloneTrail(Dec{'n', int64(val)}))
+		p.forkSite()
 		p.trail = append(p.trail, Dec{'v', int64(val)})
 		p.assertPC(tb.Eq(t, v))
 		return val
@@ -265,7 +292,7 @@ func (p *PathCtx) Assume(c *Term) {
 	}
 	p.assertPC(c)
 	p.M = nil
-	m, r := p.solver.ModelWith(nil, p.tb.vars)
+	m, r := p.modelWith(nil)
 	switch r {
 	case Sat:
 		p.M = m
@@ -316,7 +343,7 @@ func (p *PathCtx) Assert(c *Term, label string) {
 	if p.M != nil && p.M.Eval(neg) != 0 {
 		r = Sat
 	} else {
-		r = p.solver.CheckWith(neg)
+		r = p.checkWith(neg)
 	}
 	switch r {
 	case Unsat:
@@ -430,7 +457,7 @@ func (p *PathCtx) report(kind, label, site, msg string, extra *Term) {
 		if t.op == OpConst && t.c != 0 && p.M != nil {
 			return p.M, Sat
 		}
-		return p.solver.ModelWith(t, tb.vars)
+		return p.modelWith(t)
 	}
 	if len(matching) == 0 {
 		m, r := model(extra)
@@ -473,6 +500,17 @@ func (p *PathCtx) recordViolation(kind, label, site, msg string, m Model) {
 	p.viol = append(p.viol, v)
 }
 
+func (p *PathCtx) forkSite() {
+	if p.forks == nil {
+		return
+	}
+	site := "?"
+	if p.in != nil && p.in.cur != nil && p.in.cur.fr != nil {
+		site = p.in.cur.fr.servitorSite()
+	}
+	p.forks[site]++
+}
+
 // freshName numbers repeated uses of an input name deterministically.
 func (p *PathCtx) freshName(name string) string {
 	k := p.nameCount[name]
@@ -505,6 +543,7 @@ type PathResult struct {
 	Races    []string
 	Switches int
 	Threads  int
+	Forks    map[string]int
 }
 
 type Explorer struct {
@@ -521,10 +560,12 @@ type Explorer struct {
 	maxPaths int
 	npaths   int
 	truncated bool
+	progress  bool
 }
 
 func (e *Explorer) run(harness string, workers int) {
 	e.cond = sync.NewCond(&e.mu)
+	e.started = time.Now()
 	e.work = [][]Dec{nil}
 	var wg sync.WaitGroup
 	for w := 0; w < workers; w++ {
@@ -567,6 +608,9 @@ func (e *Explorer) run(harness string, workers int) {
 				e.mu.Lock()
 				e.busy--
 				e.results = append(e.results, res)
+				if e.progress && len(e.results)%2000 == 0 {
+					fmt.Fprintf(os.Stderr, "  .. %d paths, %d queued, %.0fs\n", len(e.results), len(e.work), time.Since(e.started).Seconds())
+				}
 				// push alternatives so that the deepest is explored first
 				for i := 0; i < len(alts); i++ {
 					e.work = append(e.work, alts[i])
@@ -589,9 +633,11 @@ func (e *Explorer) run(harness string, workers int) {
 
 // runPath executes one path of the harness.
 func runPath(P *Program, cfg *RunConfig, s *Solver, harness string, prefix []Dec) (res *PathResult, alts [][]Dec) {
-	s.Reset()
 	tb := NewTermBank()
-	p := &PathCtx{tb: tb, solver: s, prefix: prefix, asserts: map[string]*AssertSite{}, reached: map[string]bool{}, cfg: cfg, nameCount: map[string]int{}, decided: map[*Term]bool{}, twin: cfg.Twin}
+	p := &PathCtx{tb: tb, solver: s, prefix: prefix, asserts: map[string]*AssertSite{}, reached: map[string]bool{}, cfg: cfg, nameCount: map[string]int{}, decided: map[*Term]bool{}, twin: cfg.Twin, M: Model{}}
+	if cfg.ProfileForks {
+		p.forks = map[string]int{}
+	}
 	in := &Interp{P: P, ex: p, tb: tb, globals: map[*ssa.Global]Ptr{}, budget: cfg.StepBudget,
 		sliceData: map[Ptr][]Value{}, objTags: map[any]string{}, funcsSeen: map[*ssa.Function]bool{},
 		nativeCache: map[string]any{}}
@@ -679,6 +725,7 @@ func runPath(P *Program, cfg *RunConfig, s *Solver, harness string, prefix []Dec
 	for _, v := range p.viol {
 		v.Harness = harness
 	}
+	res.Forks = p.forks
 	res.Trail = p.trail
 	res.Viol = p.viol
 	res.Stats = p.stats
